@@ -376,7 +376,7 @@ func h2h3(w *World, r *Report, name string) {
 		e := &enumerator{w: w, eval: fe.eval, event: event, max: 4000, complete: true, evCache: map[ssa.Instruction]string{}, hasEv: map[*ssa.Function]int{}, pathSensitiveEvents: true}
 		var out []pathEnd
 		e.walkFn(fn, nil, 0, func(ev []string, ret *ssa.Return, term string) {
-			out = append(out, pathEnd{append([]string(nil), ev...), term, ret})
+			out = append(out, pathEnd{append([]string(nil), ev...), term, ret, nil})
 		})
 		w.cur = nil
 		w.branchMarkers = saved
@@ -579,6 +579,15 @@ func (w *World) canonResolved(v ssa.Value) string {
 		break
 	}
 	return w.Canon(v0)
+}
+
+// canonOnPathFallible: canonical form of v on the path being enumerated, looking
+// through selection helpers (which may also return an error).
+func (w *World) canonOnPathFallible(v ssa.Value) string {
+	saved := w.resolveFallible
+	w.resolveFallible = true
+	defer func() { w.resolveFallible = saved }()
+	return w.canonResolved(w.phiOnPath(v))
 }
 
 func (w *World) isLssField(v ssa.Value, lss ssa.Value, name string) bool {
